@@ -183,8 +183,27 @@ fn c01_judge(ctx: &mut Ctx, known: &Known, c: &CaseReq, ex: &Exchange, parsed: O
 
 // ---------------------------------------------------------------------------------- C03
 
+/// Lone needles of every kind and case flag against strings whose multi-byte characters straddle
+/// every byte offset a needle length can point at: evaluation returns, plain and optimised.
+fn c03_multibyte(ctx: &mut Ctx) {
+    let hays = ["€b", "aé", "日本", "é", "ab€", "€", "C:\\Temp\\日本", "aé.exe", "éa", "ÿ", "a€", "€€", "x日", "𝄞", "a𝄞b"];
+    let docs: Vec<Yaml> = hays.iter().map(|h| map1y("s", gen::ys(h))).chain(hays.iter().map(|h| map1y("s", Yaml::Sequence(vec![gen::ys(h), gen::ys("zz")])))).collect();
+    for pat in ["iabc*", "i*abc", "iab", "iab*", "i*.exe", "i*ab", "ia*", "i*a", "abc*", "*abc", "i*b*", "ié*", "i*é", "i€*", "i*€", "i日*", "i?^ab", "iabcd*", "i*bcde", "ia"] {
+        for cond in ["A", "not A"] {
+            let c = CaseReq { optimised: false, det: vec![("A".into(), map1y("s", gen::ys(pat))), ("condition".into(), gen::ys(cond))], tps: vec![], tns: vec![], docs: docs.clone(), masks: (0..16).collect() };
+            let (ex, _parsed) = run_rule_case(ctx, &c, false);
+            if ex.imp.contains("PANIC") || ex.imp.starts_with("HANG") {
+                ctx.violation("oracle", &format!("matching the pattern {:?} against multi-byte strings panicked: {}", pat, trunc(&ex.imp, 200)), &ex, &rule_yaml(&c), true);
+            } else {
+                ctx.nontrivial.insert(hash_str(&ex.line));
+            }
+        }
+    }
+}
+
 pub fn run_c03(ctx: &mut Ctx, _known: &Known) {
     run_implonly(ctx);
+    c03_multibyte(ctx);
     // conditions that are a single bare value (no operator, identifier or quantifier): either a
     // load error or a rule that evaluates without panicking
     for cond in ["int(x)", "flt(x)", "str(x)", "not(x)", "1", "1.5", "(int(x))", "((1))", "string(x)", "x", "(x)", "all(x)", "of(x, 1)", "int(x) == 1", "not x"] {
